@@ -99,6 +99,13 @@ impl TimeStrategy {
             force_stop,
         };
 
+        #[cfg(jgilchrist_tcheran_verif)]
+        let mut time_strategy = time_strategy;
+        #[cfg(jgilchrist_tcheran_verif)]
+        if let Some(first) = verif_hooks::first_check_at() {
+            time_strategy.next_check_at = first;
+        }
+
         (time_strategy, control)
     }
 
@@ -128,6 +135,9 @@ impl TimeStrategy {
     }
 
     pub fn should_stop(&mut self, nodes_visited: u64) -> bool {
+        #[cfg(jgilchrist_tcheran_verif)]
+        verif_hooks::node_entry(nodes_visited);
+
         if nodes_visited < self.next_check_at {
             return false;
         }
@@ -177,6 +187,10 @@ pub mod verif_hooks {
         static POLLS: Cell<u64> = const { Cell::new(0) };
         static STOP_AT: Cell<u64> = const { Cell::new(0) };
         static EXPIRE_AT: Cell<u64> = const { Cell::new(0) };
+        static AT_NODE: Cell<u64> = const { Cell::new(0) };
+        static AT_NODE_EXPIRY: Cell<bool> = const { Cell::new(false) };
+        static LAST_NODES: Cell<u64> = const { Cell::new(0) };
+        static NODES_AFTER_STOP: Cell<u64> = const { Cell::new(0) };
         static STOPPED_AT: std::cell::RefCell<Option<String>> = const { std::cell::RefCell::new(None) };
     }
 
@@ -184,6 +198,9 @@ pub mod verif_hooks {
     pub fn arm(stop_at: u64) {
         POLLS.with(|p| p.set(0));
         EXPIRE_AT.with(|s| s.set(0));
+        AT_NODE.with(|s| s.set(0));
+        LAST_NODES.with(|s| s.set(0));
+        NODES_AFTER_STOP.with(|s| s.set(0));
         STOP_AT.with(|s| s.set(stop_at));
         STOPPED_AT.with(|s| *s.borrow_mut() = None);
     }
@@ -216,7 +233,7 @@ pub mod verif_hooks {
 
     pub(super) fn expired() -> bool {
         let k = EXPIRE_AT.with(Cell::get);
-        k != 0 && POLLS.with(Cell::get) >= k
+        (k != 0 && POLLS.with(Cell::get) >= k) || (AT_NODE_EXPIRY.with(Cell::get) && reached_node())
     }
 
     pub(super) fn poll() -> bool {
@@ -225,6 +242,36 @@ pub mod verif_hooks {
             p.get()
         });
         let k = STOP_AT.with(Cell::get);
-        k != 0 && n >= k
+        (k != 0 && n >= k) || (!AT_NODE_EXPIRY.with(Cell::get) && reached_node())
+    }
+
+    /// Stop (or, with `expiry`, let the limit read as expired) when the search's node counter reaches
+    /// `node`: the first in-search poll is placed at that node instead of at the polling distance.
+    pub fn arm_at_node(node: u64, expiry: bool) {
+        arm(0);
+        AT_NODE.with(|s| s.set(node));
+        AT_NODE_EXPIRY.with(|s| s.set(expiry));
+    }
+
+    /// Calls of `should_stop` (one per node entered) made after the search had observed its stop.
+    pub fn nodes_after_stop() -> u64 {
+        NODES_AFTER_STOP.with(Cell::get)
+    }
+
+    pub(super) fn first_check_at() -> Option<u64> {
+        let n = AT_NODE.with(Cell::get);
+        (n != 0).then_some(n)
+    }
+
+    pub(super) fn node_entry(nodes_visited: u64) {
+        LAST_NODES.with(|s| s.set(nodes_visited));
+        if STOPPED_AT.with(|s| s.borrow().is_some()) {
+            NODES_AFTER_STOP.with(|s| s.set(s.get() + 1));
+        }
+    }
+
+    fn reached_node() -> bool {
+        let n = AT_NODE.with(Cell::get);
+        n != 0 && LAST_NODES.with(Cell::get) >= n
     }
 }
